@@ -86,6 +86,99 @@ contract(
 )
 
 
+# =====================================================================================================
+# makeUnicodeToGlyphNameMapping
+
+from pyvc.api import Map  # noqa: E402
+from pyvc.core import lift as _lift  # noqa: E402
+
+cls("Glyph", fields={"name": STR, "unicodes": List(INT), "width": T.REAL, "height": T.REAL}, dynamic=False)
+
+
+def _gs_getitem(ex, st, self, idx, node):
+    return ex.getitem(ex.read_field(st, self, "glyphs"), idx, st, node)
+
+
+def _gs_keyset(ex, st, self):
+    d = ex.read_field(st, self, "glyphs")
+    return Val(Set(STR), d.ty.sort().dom(d.term))
+
+
+def _gs_uni(ex, st, self):
+    """name -> list of code points of the glyph stored under that name (a heap-derived view)."""
+    d = ex.read_field(st, self, "glyphs")
+    n = z3.Const("n!uni", z3.StringSort())
+    arr = ex.field_array(st, "Glyph", "unicodes")
+    return Val(Map(STR, List(INT)), z3.Lambda([n], z3.Select(arr, z3.Select(d.ty.sort().map(d.term), n))))
+
+
+def _gs_contains(ex, st, self, x):
+    d = ex.read_field(st, self, "glyphs")
+    return z3.Select(d.ty.sort().dom(d.term), _lift(x, STR))
+
+
+cls(
+    "GlyphSet",
+    fields={"glyphs": Dict(STR, Ref("Glyph"))},
+    derived={"keyset": _gs_keyset, "uni": _gs_uni},
+    getitem=_gs_getitem,
+    contains=_gs_contains,
+    methods={"keys": lambda ex, st, self, a, k, n: _gs_keyset(ex, st, self)},
+    views={"keyset": lambda o: set(o.keys()), "uni": lambda o: {k: list(g.unicodes) for k, g in o.items()}},
+    notes="glyph set mapping names to glyph objects (dict or Font); uni = name -> glyph.unicodes",
+)
+
+_UNI_MAPS = "all(all(u in mapping and mapping[u] == glyphOrder[a] for u in font.uni[glyphOrder[a]]) for a in range(i))"
+# ghost witnesses: wi[u], wj[u] = the (glyph index, position) entry that inserted code point u
+_UNI_WIT = (
+    "all(u in wi and u in wj and 0 <= wi[u] and wi[u] < len(glyphOrder) and 0 <= wj[u] and wj[u] < len(font.uni[glyphOrder[wi[u]]])"
+    " and font.uni[glyphOrder[wi[u]]][wj[u]] == u and mapping[u] == glyphOrder[wi[u]] and {bound} for u in mapping)"
+)
+# every processed entry is the witness of its own code point (hence no two entries share one)
+_UNI_INJ = "all(all(font.uni[glyphOrder[a]][b] in mapping and wi[font.uni[glyphOrder[a]][b]] == a and wj[font.uni[glyphOrder[a]][b]] == b for b in range(len(font.uni[glyphOrder[a]]))) for a in range(i))"
+
+contract(
+    "ufo2ft.util:makeUnicodeToGlyphNameMapping",
+    props=["C03"],
+    params={"font": Ref("GlyphSet"), "glyphOrder": Opt(List(STR))},
+    returns=Dict(INT, STR),
+    requires=["glyphOrder is not None", "all(n in font.keyset for n in glyphOrder)"],
+    ensures={
+        # every declared code point is mapped to the glyph that declares it ...
+        "maps": "all(all(u in result and result[u] == glyphOrder[i] for u in font.uni[glyphOrder[i]]) for i in range(len(glyphOrder)))",
+        # ... and nothing else is mapped
+        "only": "all(any(any(font.uni[glyphOrder[i]][j] == u for j in range(len(font.uni[glyphOrder[i]]))) for i in range(len(glyphOrder))) for u in result)",
+    },
+    raises={
+        # rejected exactly when two different (glyph, position) entries carry the same code point
+        "InvalidFontData": "any(any(any(any((a != i or b != j) and font.uni[glyphOrder[a]][b] == font.uni[glyphOrder[i]][j]"
+        " for b in range(len(font.uni[glyphOrder[a]]))) for a in range(len(glyphOrder)))"
+        " for j in range(len(font.uni[glyphOrder[i]]))) for i in range(len(glyphOrder)))",
+    },
+    canaries={"maps-wrong": "all(all(result[u] == glyphOrder[0] for u in font.uni[glyphOrder[i]]) for i in range(len(glyphOrder)))"},
+    locals={"mapping": Dict(INT, STR)},
+    ghost_vars={"wi": (Dict(INT, INT), "{}"), "wj": (Dict(INT, INT), "{}")},
+    ghost={"mapping[uni] = glyphName": ["wi = {**wi, uni: i}", "wj = {**wj, uni: j}"]},
+    loops={
+        "for glyphName in glyphOrder": Loop(
+            index="i",
+            invariants={
+                "wit": _UNI_WIT.format(bound="wi[u] < i"),
+                "inj": _UNI_INJ,
+            },
+        ),
+        "for uni in unicodes": Loop(
+            index="j",
+            invariants={
+                "wit": _UNI_WIT.format(bound="(wi[u] < i or (wi[u] == i and wj[u] < j))"),
+                "inj": _UNI_INJ,
+                "inj-cur": "all(unicodes[b] in mapping and wi[unicodes[b]] == i and wj[unicodes[b]] == b for b in range(j))",
+            },
+        ),
+    },
+)
+
+
 # ---- run-time side (cross-check, replay) -------------------------------------------------------
 import itertools  # noqa: E402
 
